@@ -145,6 +145,10 @@ theorem depNodeInfoGen_eq (s : ArgSite) : nodeInfoGen Hsrc.depNodeInfo s = nodeI
 theorem prodNodeInfoGen_eq (s : ArgSite) : nodeInfoGen Hsrc.prodNodeInfo s = nodeInfoOfArg s := by
   simp [nodeInfoGen, Hsrc.prodNodeInfo, niLookup, niStr, niPath, niTree, nodeInfoOfArg]
 
+/-- the node that replaces a container of unhashed values carries the `NodeInfo` of its parameter (F41 repaired) -/
+theorem mergedNodeInfoGen_eq (s : ArgSite) : mergedNodeInfoGen s = nodeInfoOfMerged s := by
+  simp [mergedNodeInfoGen, Hsrc.mergedNodeInfo, nodeInfoGen, niLookup, niStr, niPath, niTree, nodeInfoOfMerged]
+
 /-- what the model's world abstraction presupposes about `_get_state` -/
 theorem getState_interface :
     Hsrc.getStateStatCall = "stat" ∧ Hsrc.getStateKeyAttr = "st_mtime" ∧
